@@ -53,6 +53,7 @@ type modelState struct {
 	filterWin         map[string]*filterWindow // pod uid -> open Filter window
 	foreignDelete     map[string]int           // app/pool prefix -> step of the last delete under it by the release API, a reload or the world
 	replicaHist       map[*App][]sizePoint
+	replicaViewHist   map[*App][]sizePoint // what the lister showed (a point per delivery that changed it)
 	lostReservation   map[string]string
 	lostReservationIP map[string]string
 	mixedUIDs         map[string]bool // identity -> its key held IPs recorded for two different incarnations at some instant
@@ -74,7 +75,7 @@ type filterWindow struct {
 
 func newModel() *modelState {
 	return &modelState{idents: map[string]*Ident{}, allocs: map[string]*Alloc{}, adminRel: map[string]bool{}, poolSize: map[string][]sizePoint{}, poolView: map[string][]sizePoint{},
-		filterWin: map[string]*filterWindow{}, foreignDelete: map[string]int{}, replicaHist: map[*App][]sizePoint{}, mixedUIDs: map[string]bool{}, multiIP: map[string]bool{}, lostReservation: map[string]string{}, lostReservationIP: map[string]string{}}
+		filterWin: map[string]*filterWindow{}, foreignDelete: map[string]int{}, replicaHist: map[*App][]sizePoint{}, replicaViewHist: map[*App][]sizePoint{}, mixedUIDs: map[string]bool{}, multiIP: map[string]bool{}, lostReservation: map[string]string{}, lostReservationIP: map[string]string{}}
 }
 
 func (w *World) livePodWithKey(key string) *PodInfo {
@@ -408,6 +409,15 @@ func (w *World) viewReplicas(a *App) (int, bool) {
 
 // modelViewChanged is called when a workload event reaches the informer view.
 func (w *World) modelViewChanged() {
+	for _, a := range w.apps {
+		vr, ok := w.viewReplicas(a)
+		if !ok {
+			vr = -1
+		}
+		if h := w.M.replicaViewHist[a]; len(h) == 0 || h[len(h)-1].size != vr {
+			w.M.replicaViewHist[a] = append(h, sizePoint{w.S.Steps, vr})
+		}
+	}
 	for _, ip := range sortedKeys(w.M.allocs) {
 		al := w.M.allocs[ip]
 		id := w.M.idents[al.Key]
